@@ -58,4 +58,144 @@ example :
     draw (fun i => if i = 0 then [0, 1, 0] else if i = 1 then [0] else []) (fun i => i == 1) 5 [] 0 =
       ([.enter 0, .selfInclude 0, .enter 1, .selfInclude 0, .failed 1, .selfInclude 0], []) := by decide
 
+/-! ### the guard bounds the nesting: no nesting budget is ever needed -/
+
+/-- Pigeonhole: a duplicate-free list of numbers below `n` has at most `n` elements. -/
+theorem nodup_lt_length_le (l : List Nat) (n : Nat) (hd : l.Nodup) (hl : ∀ x ∈ l, x < n) : l.length ≤ n := by
+  have hsub : l ⊆ List.range n := by
+    intro x hx; exact List.mem_range.mpr (hl x hx)
+  have := List.Nodup.length_le_of_subset hd hsub
+  simpa using this
+
+/-- The stack of images being drawn: duplicate-free, inside the `n` images, and the nesting budget left covers what the
+guard allows. -/
+def Inv (n fuel : Nat) (flags : List Nat) : Prop :=
+  flags.Nodup ∧ (∀ x ∈ flags, x < n) ∧ n + 1 ≤ fuel + flags.length
+
+/-- The reference graph stays inside the `n` images. -/
+def Closed (refs : Nat → List Nat) (n : Nat) : Prop := ∀ i, i < n → ∀ j ∈ refs i, j < n
+
+theorem draw_no_outOfFuel (refs : Nat → List Nat) (fails : Nat → Bool) (n : Nat) (hc : Closed refs n)
+    (fuel : Nat) (flags : List Nat) (i : Nat) (hi : i < n) (hinv : Inv n fuel flags) :
+    Ev.outOfFuel ∉ (draw refs fails fuel flags i).1 := by
+  induction fuel generalizing flags i with
+  | zero =>
+    obtain ⟨hd, hl, hn⟩ := hinv
+    have := nodup_lt_length_le flags n hd hl
+    omega
+  | succ fuel ih =>
+    unfold draw
+    by_cases h : i ∈ flags
+    · simp [h]
+    · simp only [h, if_false]
+      obtain ⟨hd, hl, hn⟩ := hinv
+      have hinv' : Inv n fuel (i :: flags) := by
+        refine ⟨List.nodup_cons.mpr ⟨h, hd⟩, ?_, ?_⟩
+        · intro x hx
+          simp only [List.mem_cons] at hx
+          rcases hx with rfl | hx
+          · exact hi
+          · exact hl x hx
+        · simp only [List.length_cons]; omega
+      have hfold : ∀ (l : List Nat) (evs : List Ev) (st : List Nat), (∀ j ∈ l, j < n) → Inv n fuel st →
+          Ev.outOfFuel ∉ evs →
+          Ev.outOfFuel ∉ (l.foldl (fun acc j => ((acc.1 ++ (draw refs fails fuel acc.2 j).1,
+            (draw refs fails fuel acc.2 j).2) : List Ev × List Nat)) (evs, st)).1 := by
+        intro l
+        induction l with
+        | nil => intro evs st _ _ he; exact he
+        | cons j rest ihl =>
+          intro evs st hj hst he
+          simp only [List.foldl_cons]
+          rw [draw_restores_flags refs fails fuel st j]
+          apply ihl _ st (fun k hk => hj k (by simp [hk])) hst
+          intro hmem
+          rcases List.mem_append.mp hmem with hm | hm
+          · exact he hm
+          · exact ih st j (hj j (by simp)) hst hm
+      have hin := hfold (refs i) [] (i :: flags) (hc i hi) hinv' (by simp)
+      intro hmem
+      simp only [List.mem_cons, List.mem_append] at hmem
+      rcases hmem with (hm | hm) | hm
+      · cases hm
+      · exact hin hm
+      · split at hm <;> simp at hm
+
+/-- **draw_needs_no_fuel**: with `n` images whose drawings only draw each other, the guard keeps the nesting below
+`n + 1`: a nesting bound of `n + 1` is never reached, whatever the cycles — no `RecursionError`, which is what an
+SVG image including itself ran into (in every branch, swallowed each time) before 9598d29. -/
+theorem draw_needs_no_fuel (refs : Nat → List Nat) (fails : Nat → Bool) (n : Nat) (hc : Closed refs n)
+    (root : Nat) (hr : root < n) : Ev.outOfFuel ∉ (draw refs fails (n + 1) [] root).1 :=
+  draw_no_outOfFuel refs fails n hc (n + 1) [] root hr ⟨List.nodup_nil, by simp, by simp⟩
+
+private theorem fold_prefix (refs : Nat → List Nat) (fails : Nat → Bool) (fuel : Nat) (l : List Nat) :
+    ∀ (evs : List Ev) (st : List Nat), ∃ t,
+      (l.foldl (fun acc j => ((acc.1 ++ (draw refs fails fuel acc.2 j).1,
+        (draw refs fails fuel acc.2 j).2) : List Ev × List Nat)) (evs, st)).1 = evs ++ t := by
+  induction l with
+  | nil => intro evs st; exact ⟨[], by simp⟩
+  | cons j rest ih =>
+    intro evs st
+    simp only [List.foldl_cons]
+    obtain ⟨t, ht⟩ := ih (evs ++ (draw refs fails fuel st j).1) (draw refs fails fuel st j).2
+    exact ⟨(draw refs fails fuel st j).1 ++ t, by rw [ht, List.append_assoc]⟩
+
+/-- A drawing that did not reach the nesting bound is the same under a larger bound. -/
+theorem draw_succ_eq (refs : Nat → List Nat) (fails : Nat → Bool) (fuel : Nat) (flags : List Nat) (i : Nat)
+    (h : Ev.outOfFuel ∉ (draw refs fails fuel flags i).1) :
+    draw refs fails (fuel + 1) flags i = draw refs fails fuel flags i := by
+  induction fuel generalizing flags i with
+  | zero => simp [draw] at h
+  | succ f ih =>
+    have hfold : ∀ (l : List Nat) (evs : List Ev) (st : List Nat),
+        Ev.outOfFuel ∉ (l.foldl (fun acc j => ((acc.1 ++ (draw refs fails f acc.2 j).1,
+          (draw refs fails f acc.2 j).2) : List Ev × List Nat)) (evs, st)).1 →
+        l.foldl (fun acc j => ((acc.1 ++ (draw refs fails (f + 1) acc.2 j).1,
+          (draw refs fails (f + 1) acc.2 j).2) : List Ev × List Nat)) (evs, st) =
+        l.foldl (fun acc j => ((acc.1 ++ (draw refs fails f acc.2 j).1,
+          (draw refs fails f acc.2 j).2) : List Ev × List Nat)) (evs, st) := by
+      intro l
+      induction l with
+      | nil => intro evs st _; rfl
+      | cons j rest ihl =>
+        intro evs st hno
+        simp only [List.foldl_cons] at hno ⊢
+        obtain ⟨t, ht⟩ := fold_prefix refs fails f rest (evs ++ (draw refs fails f st j).1) (draw refs fails f st j).2
+        have hj : Ev.outOfFuel ∉ (draw refs fails f st j).1 := by
+          intro hm
+          apply hno
+          rw [ht]
+          simp [hm]
+        rw [ih st j hj]
+        exact ihl _ _ hno
+    rw [draw.eq_def refs fails (f + 1 + 1), draw.eq_def refs fails (f + 1)] at *
+    simp only at h ⊢
+    by_cases hi : i ∈ flags
+    · simp [hi]
+    · simp only [hi, if_false] at h ⊢
+      have hin : Ev.outOfFuel ∉ ((refs i).foldl (fun acc j => ((acc.1 ++ (draw refs fails f acc.2 j).1,
+          (draw refs fails f acc.2 j).2) : List Ev × List Nat)) ([], i :: flags)).1 := by
+        intro hm; apply h; simp [hm]
+      rw [hfold (refs i) [] (i :: flags) hin]
+
+/-- **draw_fuel_irrelevant**: the nesting bound plays no role from `n + 1` on — the model's `fuel` is not an input of
+the behaviour (the real `SVGImage.draw` has none). -/
+theorem draw_fuel_irrelevant (refs : Nat → List Nat) (fails : Nat → Bool) (n : Nat) (hc : Closed refs n)
+    (root : Nat) (hr : root < n) (k : Nat) :
+    draw refs fails (n + 1 + k) [] root = draw refs fails (n + 1) [] root := by
+  induction k with
+  | zero => rfl
+  | succ k ih =>
+    have hno : Ev.outOfFuel ∉ (draw refs fails (n + 1 + k) [] root).1 := by
+      rw [ih]; exact draw_needs_no_fuel refs fails n hc root hr
+    have := draw_succ_eq refs fails (n + 1 + k) [] root hno
+    rw [← ih, ← this]
+    rfl
+
+example : Closed (fun i => if i = 0 then [0, 1, 0] else if i = 1 then [0] else []) 2 := by
+  intro i hi j hj
+  have : i = 0 ∨ i = 1 := by omega
+  rcases this with rfl | rfl <;> simp at hj <;> omega
+
+
 end Wp.C19.Svg
